@@ -308,7 +308,8 @@ def plan(tier, seed):
         tasks=tasks,
         run=run_task,
         rule="every history up to the depth bound x every insertion position x every applicable failing statement x every live "
-        "tensor as its operand/target; each compared with the fault-free run; non-trivial = distinct (history, position, fault, target)",
+        "tensor as its operand/target (shape/index/axis/dtype failures, un-castable later operands, read-only targets; worlds incl. pre-built view families "
+        "with ops consuming two members); each compared with the fault-free run; non-trivial = distinct (history, position, fault, target)",
         bounds={"%s/depth%d" % (w, d): nf for w, d, nf in BOUNDS[tier]},
         assumptions=[
             "differential oracle: no expected values; the gradient of a failed in-place target right after the failure is not compared (the property is silent)",
